@@ -1,1 +1,2 @@
-
+From Coq Require Import List.
+Theorem placeholder_c15 : True. Proof. exact I. Qed.
